@@ -53,7 +53,7 @@ func runC07(c *Ctx, r *Report, tier string) {
 		if fn == pl {
 			want = "lookup(lookup.longNames(&parseState.lookup(P1)), P2)"
 		} else {
-			want = "lookup(lookup.shortNames(&parseState.lookup(P1)), conv[string](next(range("
+			want = "lookup(lookup.shortNames(&parseState.lookup(P1)), conv[string](runeat("
 		}
 		ok := strings.HasPrefix(opt, want)
 		var bad []string
@@ -68,7 +68,7 @@ func runC07(c *Ctx, r *Report, tier string) {
 		if fn == pl {
 			r.Check(name == "P2", "EXACT", fname, "name operand", c.ipos(call), "the looked-up name", "name is "+name)
 		} else {
-			r.Check(strings.HasPrefix(name, "conv[string](next(range("), "EXACT", fname, "name operand", c.ipos(call), "string of the current rune", "name is "+trunc(name, 80))
+			r.Check(strings.HasPrefix(name, "conv[string](runeat("), "EXACT", fname, "name operand", c.ipos(call), "string of the current rune", "name is "+trunc(name, 80))
 		}
 		// MISS
 		nMiss := 0
@@ -85,7 +85,7 @@ func runC07(c *Ctx, r *Report, tier string) {
 			c.within(ci.Frames, func() {
 				for _, a := range sliceLitElems(e.Call.Args[2]) {
 					ta := c.term(a)
-					if (fn == pl && ta == "P2") || (fn == ps && strings.HasPrefix(ta, "conv[string](next(range(")) {
+					if (fn == pl && ta == "P2") || (fn == ps && strings.HasPrefix(ta, "conv[string](runeat(")) {
 						named = true
 					}
 				}
